@@ -190,7 +190,7 @@ pub fn response_code(c: &ResponseCode) -> V {
         ResponseCode::MetadataMaxSize(n) => V::Con("ResponseCode::MetadataMaxSize", vec![V::Num(*n)]),
         ResponseCode::MetadataTooMany => V::Con("ResponseCode::MetadataTooMany", vec![]),
         ResponseCode::MetadataNoPrivate => V::Con("ResponseCode::MetadataNoPrivate", vec![]),
-        _ => V::Con("ResponseCode::<unknown>", vec![]),
+        other => V::Con("ResponseCode::<unknown>", vec![V::Bytes(format!("{:?}", other).into_bytes())]),
     }
 }
 
@@ -202,7 +202,7 @@ pub fn status_attribute(a: &StatusAttribute) -> V {
         StatusAttribute::UidNext(n) => V::Con("StatusAttribute::UidNext", vec![n32(n)]),
         StatusAttribute::UidValidity(n) => V::Con("StatusAttribute::UidValidity", vec![n32(n)]),
         StatusAttribute::Unseen(n) => V::Con("StatusAttribute::Unseen", vec![n32(n)]),
-        _ => V::Con("StatusAttribute::<unknown>", vec![]),
+        other => V::Con("StatusAttribute::<unknown>", vec![V::Bytes(format!("{:?}", other).into_bytes())]),
     }
 }
 
@@ -221,7 +221,7 @@ pub fn name_attribute(a: &NameAttribute) -> V {
         NameAttribute::Sent => c("NameAttribute::Sent"),
         NameAttribute::Trash => c("NameAttribute::Trash"),
         NameAttribute::Extension(x) => V::Con("NameAttribute::Extension", vec![s(x)]),
-        _ => c("NameAttribute::<unknown>"),
+        other => V::Con("NameAttribute::<unknown>", vec![V::Bytes(format!("{:?}", other).into_bytes())]),
     }
 }
 
@@ -264,7 +264,7 @@ pub fn mailbox_datum(d: &MailboxDatum) -> V {
         ),
         MailboxDatum::GmailLabels(v) => V::Con("MailboxDatum::GmailLabels", vec![list(v, s)]),
         MailboxDatum::GmailMsgId(n) => V::Con("MailboxDatum::GmailMsgId", vec![V::Num(*n)]),
-        _ => V::Con("MailboxDatum::<unknown>", vec![]),
+        other => V::Con("MailboxDatum::<unknown>", vec![V::Bytes(format!("{:?}", other).into_bytes())]),
     }
 }
 
@@ -425,7 +425,7 @@ pub fn attribute_value(a: &AttributeValue) -> V {
         AttributeValue::Uid(n) => V::Con("AttributeValue::Uid", vec![n32(n)]),
         AttributeValue::GmailLabels(v) => V::Con("AttributeValue::GmailLabels", vec![list(v, s)]),
         AttributeValue::GmailMsgId(n) => V::Con("AttributeValue::GmailMsgId", vec![V::Num(*n)]),
-        _ => V::Con("AttributeValue::<unknown>", vec![]),
+        other => V::Con("AttributeValue::<unknown>", vec![V::Bytes(format!("{:?}", other).into_bytes())]),
     }
 }
 
@@ -548,6 +548,6 @@ pub fn response(r: &Response) -> V {
             "Response::MyRights",
             vec![V::Rec("MyRights", vec![("mailbox", s(&m.mailbox)), ("rights", list(&m.rights, acl_right))])],
         ),
-        _ => V::Con("Response::<unknown>", vec![]),
+        other => V::Con("Response::<unknown>", vec![V::Bytes(format!("{:?}", other).into_bytes())]),
     }
 }
